@@ -3,7 +3,7 @@
    Model: Model/GreedyRule.v (mirror of greedywelfare_rule.py); spec: Spec/GreedySpec.v.
    Only hypothesis on the instance: costs are non-negative (weaker than wf_inst).  [sat] is ANY function from
    lists of projects to Q (additive or not: Chamberlin-Courant, sqrt/log of cost, ...). *)
-From PB Require Import Model.GreedyRule Spec.GreedySpec Proofs.GreedyP Proofs.GreedyAddP.
+From PB Require Import Model.GreedyRule Spec.GreedySpec Proofs.GreedyP Proofs.GreedyAddP Proofs.GreedyReplayP.
 Open Scope Q_scope.
 
 (* the general scheme (resolute) terminates and its result is the outcome of a run of the declarative definition:
@@ -70,6 +70,13 @@ Theorem C03_greedy_run_exhaustive : forall I (ch : list proj -> proj -> Prop) a 
   greedy_run I ch a W -> exhaustive I W.
 Proof. exact greedy_run_exhaustive. Qed.
 Print Assumptions C03_greedy_run_exhaustive.
+
+(* the boolean replay applied by Oracle/C03.v to the implementation's returned order decides "is the run of the
+   definition": it accepts a purchase order exactly when that order is the greedy run *)
+Theorem C03_oracle_replay_iff : forall I sat tb rest alloc,
+  PB.Oracle.C03.replayb I sat tb alloc rest = true <-> greedy_run I (tb_first I sat tb) alloc (alloc ++ rest).
+Proof. exact replayb_iff. Qed.
+Print Assumptions C03_oracle_replay_iff.
 
 (* non-vacuity: costs 1,2,2,0, budget 3, additive utilities 2,3,3,0, lexicographic ties.  The general scheme takes
    the zero-cost project first (density +inf), the fast path last (density 0); p1/p2 tie; p2 is left out; the two
